@@ -219,6 +219,10 @@ sha256 = z3.Function("sha256", ISq, ISq)
 hmac256 = z3.Function("hmac256", ISq, ISq, ISq)
 aes_enc = z3.Function("aes_cbc_enc", ISq, ISq, ISq, ISq)   # key, iv, data
 aes_dec = z3.Function("aes_cbc_dec", ISq, ISq, ISq, ISq)
+rsa_ok = z3.Function("rsa_ok", Val, ISq, B)        # PKCS#1 v1.5 decryption with this private key succeeds
+rsa_pt = z3.Function("rsa_pt", Val, ISq, ISq)      # ... and yields this plaintext
+rsa_k = z3.Function("rsa_k", Val, I)               # modulus size in bytes
+keypair = z3.Function("keypair", Val, Val, B)      # (public, private) belong together
 lower_c = z3.Function("lower_c", I, I)
 upper_c = z3.Function("upper_c", I, I)
 seq_lower = z3.Function("seq_lower", ISq, ISq)
